@@ -34,8 +34,9 @@ def feature(values, keys=()):
     return '+'.join(sorted(cs)) or 'plain'
 
 
-def run_one(pairs):
-    """pairs: [(key, value)] values arbitrary python objects.  returns dict(viol, obs, log)"""
+def run_one(pairs, before=None):
+    """pairs: [(key, value)] values arbitrary python objects; before: pairs of an earlier set_conf call made on another
+    connection in the same process (whatever it leaves behind must not matter).  returns dict(viol, obs, log)"""
     viol = []
     flat = []
     for k, v in pairs:
@@ -44,6 +45,15 @@ def run_one(pairs):
     strs = [w[1] for w in want]
     keys = [w[0] for w in want]
     with World() as w:
+        if before:
+            first = Ctl(w)
+            fb = []
+            for k, v in before:
+                fb += [k, v]
+            try:
+                first.proto.set_conf(*fb).addErrback(lambda f: None)
+            except Exception:
+                pass
         ctl = Ctl(w)
         raised = None
         res = None
@@ -88,7 +98,7 @@ def run_one(pairs):
         errs = w.errors()
         if errs:
             viol.append(('logged-error', errs[0][1], '%r' % (errs[:1],)))
-    return dict(viol=viol, obs=(outcome, data), log=['set_conf%r' % (tuple(flat),), 'wire: %r' % (data,)])
+    return dict(viol=viol, obs=(outcome, data), log=(['earlier, elsewhere: set_conf%r' % (tuple(fb),)] if before else []) + ['set_conf%r' % (tuple(flat),), 'wire: %r' % (data,)])
 
 
 def tasks(tier, seed):
@@ -141,11 +151,15 @@ def minimise(pairs, clause):
     return out
 
 
-def record(acc, pairs, r, nontrivial):
-    acc.execution(key=pairs, outcome=r['obs'][0] + ('/quoted' if b'"' in r['obs'][1][:30] else ''),
-                  nontrivial=nontrivial, steps=1)
+def record(acc, pairs, r, nontrivial, before=None):
+    acc.execution(key=(pairs, before), outcome=r['obs'][0] + ('/quoted' if b'"' in r['obs'][1][:30] else ''),
+                  nontrivial=nontrivial, steps=1 if not before else 2)
     acc.state(h64(r['obs']))
     for clause, feat, detail in r['viol']:
+        if before:
+            acc.violation('%s/%s/after-an-earlier-call' % (clause, feat), detail,
+                          dict(pairs=[[k, v] for k, v in pairs], before=[[k, v] for k, v in before]), cost=1000)
+            continue
         mp = minimise(pairs, clause)
         if mp != pairs:
             mr = run_one(mp)
@@ -196,12 +210,19 @@ def run_task(param, acc):
         for a, b in itertools.permutations(NONSTR, 2):
             pairs = ((KEYS[0], a), (KEYS[1], b))
             record(acc, pairs, run_one(pairs), True)
+            # the same key twice in one call, and in two calls: values that compare equal (1 == True) are still different values
+            pairs = ((KEYS[0], a), (KEYS[0], b))
+            record(acc, pairs, run_one(pairs), True)
+            pairs = ((KEYS[0], b),)
+            record(acc, pairs, run_one(pairs, before=((KEYS[0], a),)), True, before=((KEYS[0], a),))
 
 
 def replay(p):
     pairs = tuple((k, v) for k, v in p['pairs'])
-    r = run_one(pairs)
-    return dict(violations=[dict(signature='%s/%s' % (c, f), what=d) for c, f, d in r['viol']], log=r['log'])
+    before = tuple((k, v) for k, v in p['before']) if p.get('before') else None
+    r = run_one(pairs, before=before)
+    suffix = '/after-an-earlier-call' if before else ''
+    return dict(violations=[dict(signature='%s/%s%s' % (c, f, suffix), what=d) for c, f, d in r['viol']], log=r['log'])
 
 
 def meta(tier):
